@@ -79,6 +79,12 @@ def c09_loop_cannot_exit(ctx):
     return fired and quiet, "C09.R3 on peer::ctl_loop_cannot_exit (and silent on an ordinary for loop)"
 
 
+def c14_cache_insert_elsewhere(ctx):
+    from .rules import c14
+    c14.r1(ctx)
+    return _fired(ctx, "C14.R1", "ctl_cache_changeset_node"), "C14.R1 on tree::ctl_cache_changeset_node"
+
+
 def run(names, extract):
     out = []
     for n in names:
